@@ -70,11 +70,16 @@ func (h *holder) block(f func()) {
 
 		// Before returning from f() we must reacquire.
 		defer func() {
-			// If we are still blocked, re-acquire. Otherwise, we just got got released
-			// (and that release used our token we gave up), and should no longer try to
-			// re-acquire.
-			if atomic.CompareAndSwapInt64(&h.status, blocked, acquired) {
-				h.l.ch <- struct{}{}
+			// Take a token before claiming to hold one: were status set to acquired
+			// while the token is not yet in the channel, a concurrent release would
+			// receive a token that belongs to another holder and the limit would be
+			// exceeded.
+			h.l.ch <- struct{}{}
+			// If we are still blocked, we now hold the token again. Otherwise, we just
+			// got released (and that release used our token we gave up), so give the
+			// token back.
+			if !atomic.CompareAndSwapInt64(&h.status, blocked, acquired) {
+				<-h.l.ch
 			}
 		}()
 	}
